@@ -10,6 +10,7 @@ import Gv.Model.Gen
 import Gv.Model.Eval
 import Gv.Proofs.GenLemmas
 import Gv.Props.C02
+import Gv.Proofs.Fresh
 
 namespace Gv.Props.C04
 open Gv Gv.Gen Gv.Eval
@@ -80,5 +81,55 @@ theorem C04_skipcopy_different_types_remade (se te : Ty) (hne : (Ty.slice se == 
     exact ⟨elem, h.1.symm⟩
 
 end
+
+/-! ### The composite theorem: the result of a checked structural program is made of cells allocated during the call
+
+For every program whose plans pass `PlanCheck.checkProg` (default settings, no custom function, no skipCopySameType: the
+driver evaluates the check on every generated plan of the campaign), every method, every well-typed source value of any
+size, depth and internal sharing, and any fuel: each reference cell (pointer target, slice backing array, map) of the result
+was allocated during the call, and no cell occurs twice in the result. Hence nothing mutable is reachable from both the
+source and the result. -/
+
+open Gv.Typing Gv.Sound in
+theorem C04_composite (p : Program) (hchk : PlanCheck.checkProg p = true)
+    (fuel m : Nat) (s t : Ty) (v : Val) (n : Nat) (v' : Val) (n' : Nat)
+    (hsig : sigOf p m = some (s, t)) (hwt : WT p.conv.env v s)
+    (hev : callMethod p fuel m v [] n = .ok (v', n')) :
+    AllocL n n' (allLocs v') :=
+  callMethod_fresh p (checkProg_sound p hchk) fuel m s t v n v' n' hsig hwt hev
+
+open Gv.Typing Gv.Sound in
+/-- no cell of the caller's input (locations `src k`) is part of the result -/
+theorem C04_no_source_cell (p : Program) (hchk : PlanCheck.checkProg p = true)
+    (fuel m : Nat) (s t : Ty) (v : Val) (n : Nat) (v' : Val) (n' : Nat)
+    (hsig : sigOf p m = some (s, t)) (hwt : WT p.conv.env v s)
+    (hev : callMethod p fuel m v [] n = .ok (v', n')) (k : Nat) : Loc.src k ∉ allLocs v' := by
+  intro hmem
+  obtain ⟨_, h2, _⟩ := C04_composite p hchk fuel m s t v n v' n' hsig hwt hev
+  obtain ⟨j, hj, _, _⟩ := h2 _ hmem
+  cases hj
+
+open Gv.Typing Gv.Sound in
+/-- source and result share no cell, whatever the source is made of, as long as its cells are the caller's -/
+theorem C04_disjoint (p : Program) (hchk : PlanCheck.checkProg p = true)
+    (fuel m : Nat) (s t : Ty) (v : Val) (n : Nat) (v' : Val) (n' : Nat)
+    (hsig : sigOf p m = some (s, t)) (hwt : WT p.conv.env v s)
+    (hsrc : ∀ l, l ∈ allLocs v → ∃ k, l = .src k)
+    (hev : callMethod p fuel m v [] n = .ok (v', n')) : ∀ l, l ∈ allLocs v' → l ∉ allLocs v := by
+  intro l hl hl'
+  obtain ⟨k, rfl⟩ := hsrc l hl'
+  exact C04_no_source_cell p hchk fuel m s t v n v' n' hsig hwt hev k hl
+
+open Gv.Typing Gv.Sound in
+/-- the result is a tree: no cell is reachable along two paths (so mutating one part never changes another) -/
+theorem C04_result_unshared (p : Program) (hchk : PlanCheck.checkProg p = true)
+    (fuel m : Nat) (s t : Ty) (v : Val) (n : Nat) (v' : Val) (n' : Nat)
+    (hsig : sigOf p m = some (s, t)) (hwt : WT p.conv.env v s)
+    (hev : callMethod p fuel m v [] n = .ok (v', n')) : (allLocs v').Nodup :=
+  (C04_composite p hchk fuel m s t v n v' n' hsig hwt hev).2.2
+
+/-- non-vacuity: for the example program of C02 the result's cells are the two allocated ones -/
+example : Gv.Sound.allLocs Gv.Props.C02.exResult = [.fresh 0, .fresh 1] := by
+  simp [Gv.Sound.allLocs, Gv.Sound.allLocs.locsFields, Gv.Sound.allLocs.locsList, Gv.Props.C02.exResult]
 
 end Gv.Props.C04
